@@ -210,6 +210,30 @@ def seam(check, prog, canon):
                   'size parameters x = k r, relative indices m = n / n_medium', loc,
                   fail_detail='x = %s, m = %s' % (c0.show(strip(gx))[:80],
                                                   c0.show(strip(gm))[:80]))
+    # refusals: a zero radius, or a size parameter beyond the supported range --
+    # nothing else (a negated guard would refuse every ordinary sphere)
+    from .common import norm_cond, lt_form
+    rz = [o for o in res.raises]
+    okr = len(rz) == 2
+    if okr:
+        c1 = norm_cond(rz[0].cond)
+        c2 = norm_cond(rz[1].cond)
+        okr = len(c1) == 1 and c1[0][1] is True and c1[0][0][0] == 'call' and \
+            isinstance(c1[0][0][1], tuple) and c1[0][0][1][2] == 'any' and \
+            c1[0][0][1][1][0] == 'cmp' and c1[0][0][1][1][1] == '==' and \
+            c1[0][0][1][1][3] == num(0) and \
+            any(x == ('attr', sym('s'), 'r') for x in subterms(c1[0][0]))
+        big = [t for t, p in c2 if p and t[0] == 'cmp']
+        rest = [(t, p) for t, p in c2 if (t, p) != (c1[0][0], False)]
+        okr = okr and len(rest) == 1 and len(big) == 1
+        if okr:
+            f = lt_form(big[0])
+            okr = f is not None and f[0] == '<' and f[1][0] == 'num' and \
+                f[2][0] == 'call' and isinstance(f[2][1], tuple) and f[2][1][2] == 'max'
+    check.require(okr, 'H3-dispatch', 'Mie._scat_coeffs refusals',
+                  'InvalidScatterer iff a radius is zero or the largest size parameter '
+                  'exceeds the supported range', loc, fail_detail='raises under %s' % [
+                      [(show(t)[:70], p) for t, p in o.cond] for o in rz])
     nst = v[2][2]
     check.require(nst == ('call', MSL + 'nstop', (x0,), ()), 'H3-dispatch',
                   'Mie._scat_coeffs truncation', 'nstop computed from the same x', loc)
@@ -390,9 +414,11 @@ def smatrix(check, prog, canon):
             r = c0.rat(mix)
             pils, tauls = c0.canon_term(pils), c0.canon_term(tauls)
             terms = {}
-            for mono, c in r.num.items():
+            if r.den != {(): 1}:
+                terms = None
+            for mono, c in (r.num.items() if terms is not None else ()):
                 atoms = [a for a, e in mono]
-                if c != 1 or len(mono) != 2:
+                if c != 1 or len(mono) != 2 or any(e != 1 for a, e in mono):
                     terms = None
                     break
                 if tauls in atoms:
@@ -417,6 +443,24 @@ def smatrix(check, prog, canon):
                     and cc[0][3][0][1][0] == 'call' and cc[0][3][0][1][1] == 'range' and \
                     cc[0][3][0][1][2][0] == num(1)
             okf = okf and okc
+            if okf:
+                # orders 1 .. L for the weights, the angular functions and the
+                # coefficients alike; the coefficient routine gets (m, x, l)
+                rng = cc[0][3][0][1]
+                L = rng[2][1] if len(rng[2]) == 2 else None
+                Lterm = None
+                if L is not None and L[0] == 'bin' and L[1] == '+' and \
+                        num(1) in (L[2], L[3]):
+                    Lterm = L[3] if L[2] == num(1) else L[2]
+                okL = Lterm is not None and len(pt[0][2]) == 2 and \
+                    pt[0][2][1] == Lterm and pt[0][2][0] == sym(fd.args.args[1].arg)
+                ab_calls = [x for x in subterms(body) if x[0] == 'call' and
+                            x[1] == MLF + 'calculate_al_bl']
+                me_ = sym(fd.args.args[0].arg)
+                okab = bool(ab_calls) and all(
+                    len(x[2]) == 3 and x[2][0] == ('attr', me_, 'index_ratio') and
+                    x[2][1] == ('attr', me_, 'size_parameter') for x in ab_calls)
+                okf = okL and okab
         check.require(okf, 'H4-scattering-matrix', 'S_' + which,
                       'S_%s = sum_l (2l+1)/(l(l+1)) (%s tau_l + %s pi_l)' % (
                           which, first[0], second[0]), loc,
